@@ -40,6 +40,9 @@ type BinomialDistribution struct {
 /* -------------------------------------------------------------------------- */
 
 func NewBinomialDistribution(theta Scalar, n int) (*BinomialDistribution, error) {
+  if math.IsNaN(theta.GetFloat64()) {
+    return nil, fmt.Errorf("invalid parameters")
+  }
   if theta.GetFloat64() < 0.0 || theta.GetFloat64() > 1.0 || n < 0 {
     return nil, fmt.Errorf("invalid parameters")
   }
